@@ -76,6 +76,14 @@ def check(ctx):
     from .C07 import cadence
 
     cadence(ctx, N, "R-REFRESH-GUARD")  # a warm start refreshes / re-orthogonalises exactly as the cold search would
+    # the stored results of a continued / repeated search (shared with C01): buffers re-extended keeping
+    # the prefix, support mask rebuilt from the selected indices alone
+    from .C01 import _support, warm_buffers
+
+    for pkg_, axis_, S_ in (("feature", 1, "M"), ("sample", 0, "N")):
+        for with_y_ in ((True, False) if axis_ == 0 else (False,)):
+            warm_buffers(ctx, N, pkg_, axis_, S_, with_y_)
+    _support(ctx, N)
     base = P.cls("skmatter._selection.GreedySelector")
     fit_site = ctx.site(P.method(base, "fit"))
     for cq, pkg, axis, S in CLASSES:
